@@ -2,7 +2,9 @@ package verifdrv
 
 import (
 	"encoding/json"
+	"fmt"
 	"sort"
+	"time"
 )
 
 func init() {
@@ -38,6 +40,10 @@ func (e *env) emitCsvTrace(kind string, dec int, out string, want [][2][]int) {
 func csvTrace(e *env) error {
 	stride := e.argInt("stride", 10)
 	idx := 0
+	// the process time zone must not move the dates: each case runs under one of these offsets (minutes east of UTC)
+	saved := time.Local
+	defer func() { time.Local = saved }()
+	zones := []int{0, 120, -720, 840, 330, -210}
 	return e.eachCase(func(raw json.RawMessage) error {
 		idx++
 		e.sum.Cases++
@@ -68,6 +74,8 @@ func csvTrace(e *env) error {
 				}
 			}
 		}
+		z := zones[(idx/stride)%len(zones)]
+		time.Local = time.FixedZone(fmt.Sprintf("Z%+d", z), z*60)
 		w := newWorld(e.rng, maxID, true)
 		cc := &concretiser{rng: e.rng}
 		x := &cmpCtx{e: e, c: c, w: w}
